@@ -29,6 +29,7 @@ ValL(l) == Out("value", "#l", <<>>, l)
 None    == ValS(NIL)
 AnyOut     == Out("any", NIL, <<>>, <<>>)
 Doc400  == Out("doc400", NIL, <<>>, <<>>)
+Val400(s) == Out("value400", s, <<>>, <<>>)     \* this value, or a 400 the framework documents (obs-date without obs_date=True)
 IsVal(o) == o.k = "value"
 
 (* ---------------------------------------------------------------- sequences of tokens *)
@@ -69,10 +70,22 @@ IsNum(ts) == ts # <<>> /\ All(ts, Digits) /\ Len(ts) <= 9       \* TLC integers 
 RECURSIVE NumVal(_)
 NumVal(ts) == IF ts = <<>> THEN 0 ELSE NumVal(SubSeq(ts, 1, Len(ts) - 1)) * 10 + DigitVal[ts[Len(ts)]]
 
+(* numerals beyond TLC's integers (first-pos / last-pos / suffix-length = 1*DIGIT has no upper bound, RFC 9110 14.1.1
+   asks recipients to anticipate large numerals): ONE big token, possibly after leading "0" tokens.  Order by table. *)
+BigRank == ("9223372036854775807" :> 1) @@ ("9223372036854775808" :> 2) @@          \* 2^63 - 1, 2^63
+           ("18446744073709551615" :> 3) @@ ("18446744073709551616" :> 4) @@        \* 2^64 - 1, 2^64
+           ("9999999999999999999999999" :> 5)                                       \* 25 digits
+BigToks == DOMAIN BigRank
+RECURSIVE StripZeros(_)
+StripZeros(ts) == IF Len(ts) > 1 /\ Head(ts) = "0" THEN StripZeros(Tail(ts)) ELSE ts
+IsBig(ts)  == ts # <<>> /\ LET z == StripZeros(ts) IN Len(z) = 1 /\ z[1] \in BigToks
+BigTxt(ts) == StripZeros(ts)[1]                                   \* canonical decimal spelling
+BigPair(a, b) == ValS("#big:(" \o a \o ", " \o b \o ")")          \* the harness' spelling of a pair with a member >= 2^31
+
 (* ---------------------------------------------------------------------------- Range *)
 (* Range = range-unit "=" range-set ; range-unit = token ; range-set = 1#range-spec ;
    range-spec = int-range / suffix-range / other-range                  (RFC 9110 14.1) *)
-RangeUnitToks == {"bytes", "items", "x", "-"} \cup Digits          \* all made of tchar
+RangeUnitToks == {"bytes", "items", "x", "-"} \cup Digits \cup BigToks   \* all made of tchar
 RangeTokens   == RangeUnitToks \cup {"=", ",", SP}
 
 RangeSplit(ts) == LET k == Idx(ts, "=") IN [ok |-> k > 0, unit |-> Before(ts, k), set |-> After(ts, k)]
@@ -85,6 +98,11 @@ ByteRangeSpec(rs) ==                     \* one range-spec of the bytes unit, no
         ELSE IF IsNum(a) /\ IsNum(b) THEN (IF NumVal(b) >= NumVal(a) THEN ValI(<<NumVal(a), NumVal(b)>>) ELSE AnyOut)
         ELSE IF IsNum(a) /\ b = <<>> THEN ValI(<<NumVal(a), -1>>)
         ELSE IF a = <<>> /\ IsNum(b) THEN (IF NumVal(b) > 0 THEN ValI(<<0 - NumVal(b), -1>>) ELSE AnyOut)
+        ELSE IF IsBig(a) /\ b = <<>> THEN BigPair(BigTxt(a), "-1")
+        ELSE IF a = <<>> /\ IsBig(b) THEN BigPair("-" \o BigTxt(b), "-1")
+        ELSE IF IsNum(a) /\ IsBig(b) THEN BigPair(ToString(NumVal(a)), BigTxt(b))
+        ELSE IF IsBig(a) /\ IsBig(b)
+             THEN (IF BigRank[BigTxt(a)] <= BigRank[BigTxt(b)] THEN BigPair(BigTxt(a), BigTxt(b)) ELSE AnyOut)
         ELSE AnyOut
 
 RangeOutcome(ts) ==
@@ -268,13 +286,96 @@ TText == <<"text", "plain">>
 TName(T) == T[1] \o "/" \o T[2]
 PrefersPool == <<TText, TJson, TXml>>          \* the harness asks client_prefers() for these, in this order
 
+(* ------------------------------------------------------------------------- HTTP-date *)
+(* HTTP-date = IMF-fixdate / obs-date ; obs-date = rfc850-date / asctime-date        (RFC 9110 5.6.7)
+   read SLOT by slot; a value is a fixed-length token sequence, one token per slot ("" = nothing there):
+     IMF-fixdate   << day-name,   ",", SP, day, SP,  month, SP,  4DIGIT, SP, time, SP, "GMT", tail >>      13 slots
+     rfc850-date   << day-name-l, ",", SP, day, "-", month, "-", 2DIGIT, SP, time, SP, "GMT", tail >>      13 slots
+     asctime-date  << day-name, SP, month, SP, ( 2DIGIT / SP 1DIGIT ), SP, time, SP, 4DIGIT, tail >>       10 slots
+   Each slot has a table of valid and near-valid spellings.  A value is a valid HTTP-date iff every slot holds
+   a valid spelling of its kind, the separators and the zone are exactly the grammar's, the tail is empty, the
+   day exists in that month of that year and the day name is the one of that date (RFC 5322 3.3 for IMF-fixdate;
+   a date whose day name contradicts it denotes no instant).  Then the instant is specified (spelled ISO 8601,
+   UTC, as the harness spells an aware datetime); everything else is value-or-400. *)
+DN(i, long) == [i |-> i, long |-> long]                  \* i: 0 = Monday .. 6 = Sunday
+DayName == ("Mon" :> DN(0, FALSE)) @@ ("Tue" :> DN(1, FALSE)) @@ ("Wed" :> DN(2, FALSE)) @@ ("Thu" :> DN(3, FALSE)) @@
+           ("Fri" :> DN(4, FALSE)) @@ ("Sat" :> DN(5, FALSE)) @@ ("Sun" :> DN(6, FALSE)) @@
+           ("Monday" :> DN(0, TRUE)) @@ ("Tuesday" :> DN(1, TRUE)) @@ ("Wednesday" :> DN(2, TRUE)) @@
+           ("Thursday" :> DN(3, TRUE)) @@ ("Friday" :> DN(4, TRUE)) @@ ("Saturday" :> DN(5, TRUE)) @@ ("Sunday" :> DN(6, TRUE))
+DayNameOdd == {"Don", "Thx", "sun", "SUN", "thu", "TUESDAY", "Sun.", "Sonntag", ""}     \* not English / wrong case / missing
+MonthNum == ("Jan" :> 1) @@ ("Feb" :> 2) @@ ("Mar" :> 3) @@ ("Apr" :> 4) @@ ("May" :> 5) @@ ("Jun" :> 6) @@
+            ("Jul" :> 7) @@ ("Aug" :> 8) @@ ("Sep" :> 9) @@ ("Oct" :> 10) @@ ("Nov" :> 11) @@ ("Dec" :> 12)
+MonthOdd == {"Avr", "Mai", "Okt", "Xxx", "apr", "APR", "nov", "DEC", "November", "11", ""}
+DT(v, form) == [v |-> v, form |-> form]                  \* form: "2d" two digits, "1d" one digit, "sp1d" SP digit
+DayTok == ("01" :> DT(1, "2d")) @@ ("06" :> DT(6, "2d")) @@ ("15" :> DT(15, "2d")) @@ ("28" :> DT(28, "2d")) @@
+          ("29" :> DT(29, "2d")) @@ ("30" :> DT(30, "2d")) @@ ("31" :> DT(31, "2d")) @@ ("00" :> DT(0, "2d")) @@
+          ("32" :> DT(32, "2d")) @@ ("99" :> DT(99, "2d")) @@ ("6" :> DT(6, "1d")) @@ (" 6" :> DT(6, "sp1d")) @@
+          (" 0" :> DT(0, "sp1d")) @@ ("006" :> DT(6, "3d"))
+DayOdd == {"", "6th", "-6"}
+YT(v, form) == [v |-> v, form |-> form]                  \* two-digit years: only those every reading of the
+YearTok == ("1994" :> YT(1994, "y4")) @@ ("1996" :> YT(1996, "y4")) @@ ("2024" :> YT(2024, "y4")) @@     \* 50-year rule agrees on
+           ("2000" :> YT(2000, "y4")) @@ ("1900" :> YT(1900, "y4")) @@ ("2023" :> YT(2023, "y4")) @@
+           ("94" :> YT(1994, "y2")) @@ ("96" :> YT(1996, "y2")) @@ ("24" :> YT(2024, "y2")) @@ ("00" :> YT(2000, "y2"))
+YearOdd == {"19945", "994", "", "-994", "1994.", "MCMXCIV"}
+TimeTok == ("08:49:37" :> TRUE) @@ ("00:00:00" :> TRUE) @@ ("23:59:59" :> TRUE) @@ ("12:00:00" :> TRUE) @@
+           ("24:00:00" :> FALSE) @@ ("23:60:00" :> FALSE) @@ ("08:99:00" :> FALSE) @@
+           ("23:59:60" :> FALSE) @@        \* a leap second fits the grammar but is an instant only when one was inserted
+           ("08:49:61" :> FALSE) @@ ("08:49:99" :> FALSE) @@ ("8:49:37" :> FALSE) @@ ("08:49" :> FALSE) @@
+           ("08:49:37.5" :> FALSE) @@ ("08.49.37" :> FALSE) @@ ("" :> FALSE)
+ZoneToks == {"GMT", "UTC", "+0000", "gmt", "Z", "EST", "GMT+1", ""}
+SepToks  == {SP, "  ", "", "-", ",", "\\u{9}"}
+TailToks == {"", SP, "x", " GMT", ";", " 1994"}
+DateTokens == DOMAIN DayName \cup DayNameOdd \cup DOMAIN MonthNum \cup MonthOdd \cup DOMAIN DayTok \cup DayOdd
+              \cup DOMAIN YearTok \cup YearOdd \cup DOMAIN TimeTok \cup ZoneToks \cup SepToks \cup TailToks
+
+IsLeap(y)    == (y % 4 = 0 /\ y % 100 # 0) \/ y % 400 = 0
+DaysIn(m, y) == IF m = 2 THEN (IF IsLeap(y) THEN 29 ELSE 28) ELSE IF m \in {4, 6, 9, 11} THEN 30 ELSE 31
+CumDays      == <<0, 31, 59, 90, 120, 151, 181, 212, 243, 273, 304, 334>>
+Ordinal(y, m, d) == 365 * (y - 1) + ((y - 1) \div 4) - ((y - 1) \div 100) + ((y - 1) \div 400)
+                    + CumDays[m] + (IF m > 2 /\ IsLeap(y) THEN 1 ELSE 0) + d          \* proleptic Gregorian, 0001-01-01 = 1
+Weekday(y, m, d) == (Ordinal(y, m, d) + 6) % 7                                       \* 0001-01-01 was a Monday
+ASSUME /\ Weekday(1994, 11, 6) = 6 /\ Weekday(1970, 1, 1) = 3 /\ Weekday(2000, 2, 29) = 1      \* anchors (RFC 9110's own example;
+       /\ Weekday(2024, 12, 31) = 1 /\ Weekday(1900, 3, 1) = 3 /\ ~IsLeap(1900) /\ IsLeap(2000)  \* the Unix epoch; leap rules)
+
+D2(n) == IF n < 10 THEN "0" \o ToString(n) ELSE ToString(n)
+DateCoreOk(dn, long, dt, forms, mt, yt, yform, tt) ==
+    /\ dn \in DOMAIN DayName /\ DayName[dn].long = long
+    /\ mt \in DOMAIN MonthNum
+    /\ yt \in DOMAIN YearTok /\ YearTok[yt].form = yform
+    /\ dt \in DOMAIN DayTok /\ DayTok[dt].form \in forms
+    /\ DayTok[dt].v >= 1 /\ DayTok[dt].v <= DaysIn(MonthNum[mt], YearTok[yt].v)
+    /\ tt \in DOMAIN TimeTok /\ TimeTok[tt]
+    /\ DayName[dn].i = Weekday(YearTok[yt].v, MonthNum[mt], DayTok[dt].v)
+Iso(yt, mt, dt, tt) == ToString(YearTok[yt].v) \o "-" \o D2(MonthNum[mt]) \o "-" \o D2(DayTok[dt].v) \o "T" \o tt \o "+00:00"
+SlotsAre(ts, idx, toks) == \A j \in 1..Len(idx) : ts[idx[j]] = toks[j]
+NoDate == [fmt |-> "none", iso |-> NIL]
+DateParse(ts) ==
+    IF Len(ts) = 13 /\ SlotsAre(ts, <<2, 3, 5, 7, 9, 11, 12, 13>>, <<",", SP, SP, SP, SP, SP, "GMT", "">>)
+       /\ DateCoreOk(ts[1], FALSE, ts[4], {"2d"}, ts[6], ts[8], "y4", ts[10])
+    THEN [fmt |-> "imf", iso |-> Iso(ts[8], ts[6], ts[4], ts[10])]
+    ELSE IF Len(ts) = 13 /\ SlotsAre(ts, <<2, 3, 5, 7, 9, 11, 12, 13>>, <<",", SP, "-", "-", SP, SP, "GMT", "">>)
+            /\ DateCoreOk(ts[1], TRUE, ts[4], {"2d"}, ts[6], ts[8], "y2", ts[10])
+    THEN [fmt |-> "rfc850", iso |-> Iso(ts[8], ts[6], ts[4], ts[10])]
+    ELSE IF Len(ts) = 10 /\ SlotsAre(ts, <<2, 4, 6, 8, 10>>, <<SP, SP, SP, SP, "">>)
+            /\ DateCoreOk(ts[1], FALSE, ts[5], {"2d", "sp1d"}, ts[3], ts[9], "y4", ts[7])
+    THEN [fmt |-> "asctime", iso |-> Iso(ts[9], ts[3], ts[5], ts[7])]
+    ELSE NoDate
+(* obs: the caller asked for the obsolete formats too (get_header_as_datetime(.., obs_date=True)).  Without it the
+   framework documents RFC 1123 dates only: an obs-date is then "this instant, or 400" - never another instant. *)
+DateOutcome(ts, obs) == LET p == DateParse(ts)
+                        IN  IF p.fmt = "none" THEN AnyOut
+                            ELSE IF p.fmt = "imf" \/ obs THEN ValS(p.iso) ELSE Val400(p.iso)
+DateStrict(ts) == DateOutcome(ts, FALSE)
+DateObs(ts)    == DateOutcome(ts, TRUE)
+
 (* ---------------------------------------------------------------------- the request *)
 (* req = [scheme, server |-> <<name, port>>, peer, root, path, query,
           h |-> [header name |-> [p |-> present, o |-> opaque, t |-> tokens]]]
    An opaque value (o) is one the harness could not express in tokens: everything derived
    from it is `AnyOut`. *)
 HNames == {"range", "content-length", "if-match", "if-none-match", "forwarded", "x-forwarded-for",
-           "x-real-ip", "x-forwarded-proto", "x-forwarded-host", "host", "accept"}
+           "x-real-ip", "x-forwarded-proto", "x-forwarded-host", "host", "accept",
+           "date", "if-modified-since", "if-unmodified-since"}
 Absent == [p |-> FALSE, o |-> FALSE, t |-> <<>>]
 Hdr(ts) == [p |-> TRUE, o |-> FALSE, t |-> ts]
 
@@ -364,7 +465,9 @@ PrefersOutcome(req) ==                   \* client_prefers(PrefersPool): the uni
 
 Attrs == {"client_accepts_json", "client_accepts_xml", "accepts_text_plain", "prefers", "range", "range_unit", "content_length", "if_match", "if_none_match", "forwarded", "access_route",
           "remote_addr", "host", "port", "netloc", "subdomain", "scheme", "forwarded_scheme", "forwarded_host",
-          "relative_uri", "prefix", "uri", "forwarded_prefix", "forwarded_uri"}
+          "relative_uri", "prefix", "uri", "forwarded_prefix", "forwarded_uri",
+          "date", "if_modified_since", "if_unmodified_since", "date_hdr", "date_obs", "ims_obs", "ius_obs"}
+DateAttrs == <<"date", "if_modified_since", "if_unmodified_since", "date_hdr", "date_obs", "ims_obs", "ius_obs">>
 
 (* what a fresh computation of accessor a on request req has to give *)
 Fresh(req, a) ==
@@ -392,6 +495,13 @@ Fresh(req, a) ==
       [] a = "client_accepts_xml"  -> AcceptsOutcome(req, TXml)
       [] a = "accepts_text_plain"  -> AcceptsOutcome(req, TText)
       [] a = "prefers"          -> PrefersOutcome(req)
+      [] a = "date"             -> Typed(req, "date", DateStrict)
+      [] a = "date_hdr"         -> Typed(req, "date", DateStrict)                      \* get_header_as_datetime("Date")
+      [] a = "date_obs"         -> Typed(req, "date", DateObs)                         \* .. obs_date=True
+      [] a = "if_modified_since"   -> Typed(req, "if-modified-since", DateStrict)
+      [] a = "ims_obs"             -> Typed(req, "if-modified-since", DateObs)
+      [] a = "if_unmodified_since" -> Typed(req, "if-unmodified-since", DateStrict)
+      [] a = "ius_obs"             -> Typed(req, "if-unmodified-since", DateObs)
       [] OTHER                  -> AnyOut
 
 (* raw lookup, any casing of the name: the wire text, None if absent (opaque: not decided here) *)
@@ -403,6 +513,8 @@ Accepts(spec, obs) ==
     IF obs.k = "exc" THEN "P:total"
     ELSE IF spec.k = "value" THEN (IF obs.k = "value" /\ obs.s = spec.s /\ obs.i = spec.i /\ obs.l = spec.l
                                    THEN "ok" ELSE "P:value")
+    ELSE IF spec.k = "value400" THEN (IF obs.k = "err400" THEN "D:obs400"
+                                      ELSE IF obs.k = "value" /\ obs.s = spec.s /\ obs.i = <<>> /\ obs.l = <<>> THEN "ok" ELSE "P:value")
     ELSE IF spec.k = "doc400" THEN (IF obs.k = "err400" THEN "ok" ELSE "D:doc400")
     ELSE "ok"
 ==========================================================================
